@@ -56,6 +56,7 @@ def run_flow(pid, tier, replay, prefix):
         e["case"] = m
         e.setdefault("lints", [])
         e.setdefault("cfgerr", {})
+        e["cfgerr_kind"] = e["cfgerr"].get("title", "").split(":")[0]      # the family of the error that stopped the analysis
         e.setdefault("cfgok", False)
         e.setdefault("cfg", {"nodes": [], "funcs": []})
         e.setdefault("files", [])
